@@ -26,8 +26,9 @@ RULE = ("each forked case runs a ProgGen program through the production Logger w
         "library bridge (EliotHandler): plain records, object messages, text with per cent signs and no arguments, arguments that do not fit "
         "the format string. Part 'shutdown': fresh interpreters whose leftover objects (module global, reference cycle, function "
         "attribute) log messages, actions and tasks with rich field values from __del__ while the interpreter is being torn down (destinations: stdout as text/binary, to_file, a "
-        "function of the main module writing to a raw descriptor); every such call must return, and every such object must have been finalized")
-ASSUMPTIONS = ["destinations, serializers and extractors raise Exception subclasses; extractors return dicts",
+        "function of the main module writing to a raw descriptor); every such call must return, and every such object must have been finalized. Part 'outermost': log_message / start_task as the outermost Python frame of a raw "
+        "thread, default logger a MemoryLogger, values that fail validation: no exception reaches the thread's top")
+ASSUMPTIONS = ["destinations, serializers and extractors raise Exception subclasses; what a buggy extractor returns instead of a dict (None, a list, a number) must not make logging raise, what is logged for it is not judged",
                "a MemoryLogger appears as explicit logger argument of part of the calls (it must not raise either); what it records is judged by C14/C16"]
 
 REG_CLASSES = ["BaseException", "Exception", "OSError", "LookupError", "ValueError", "KeyError", "UserError", "DeepUserError",
@@ -54,6 +55,7 @@ def plan(tier, seed):
     if tier == "quick":
         combos = [c_ for d in shutdown.DESTS for c_ in [x for x in combos if x[0] == d][:3]]  # three per kind of destination
     specs += [{"part": "shutdown", "seed": seed, "dest": d, "how": hw, "value": v} for d, hw, v in combos]
+    specs += [{"part": "outermost", "seed": seed, "i": i} for i in range(12 if tier == "quick" else 120)]
     return specs
 
 
@@ -89,9 +91,60 @@ def kind_of(m):
     return "contextless_message" if lvl == [1] else "in_action_message"
 
 
+def outermost_case(spec):
+    """An eliot function as the OUTERMOST Python frame of its thread (the direct target of _thread.start_new_thread, a callback run
+    from C) with a MemoryLogger as default logger and a value that fails validation: the call returns, the message is recorded."""
+    import _thread
+    import functools
+    import sys
+    import time
+    from eliot import MemoryLogger, log_message, start_task
+    from eliot.testing import swap_logger
+    res = {"evals": 1, "nontrivial": [], "counters": {}, "violations": [], "sets": {}}
+    rng = random.Random("%s:C07:outer:%d" % (spec["seed"], spec["i"]))
+    logger = MemoryLogger()
+    previous = swap_logger(logger)
+    unraisable = []
+    old_hook = sys.unraisablehook
+    sys.unraisablehook = lambda u: unraisable.append("%s: %s" % (type(u.exc_value).__name__, u.exc_value))
+    done = []
+    try:
+        kinds = []
+        for j in range(rng.randint(1, 3)):
+            kind = rng.choice(["log_message", "start_task", "log_message_ok"])
+            value = faults.Plain() if kind != "log_message_ok" else j
+            kinds.append(kind)
+            if kind == "start_task":
+                target = functools.partial(start_task, action_type="outer:t", v=value)
+            else:
+                target = functools.partial(log_message, "outer:m", v=value)
+
+            def finished(lock):
+                done.append(1)
+            lock = _thread.allocate_lock()
+            _thread.start_new_thread(target, ())
+        deadline = time.monotonic() + 20
+        while time.monotonic() < deadline and len(logger.messages) + len(unraisable) < len(kinds):
+            time.sleep(0.005)
+        time.sleep(0.02)
+    finally:
+        sys.unraisablehook = old_hook
+        swap_logger(previous)
+    if len(logger.messages) + len(unraisable) < len(kinds):
+        return {"inconclusive": "raw threads did not finish"}
+    res["counters"]["logging_calls_as_outermost_frame_of_a_thread"] = len(kinds)
+    res["nontrivial"].append(h(["outermost", kinds]))
+    if unraisable:
+        res["violations"].append({"msg": "a logging call that was the outermost frame of its thread (target of _thread.start_new_thread), to a MemoryLogger, raised %s" % unraisable[0],
+                                  "mech": None, "detail": {"kinds": kinds, "raised": unraisable[:4], "recorded": len(logger.messages)}})
+    return res
+
+
 def run_case(spec):
     if spec.get("part") == "shutdown":
         return shutdown_case(spec)
+    if spec.get("part") == "outermost":
+        return outermost_case(spec)
     rng = random.Random("%s:C07:%d" % (spec["seed"], spec["i"]))
     res = {"evals": 1, "nontrivial": [], "counters": {}, "violations": [], "sets": {"fault_x_message_kind": [], "hostile_value_types": []}}
     fired = {"dest": 0, "ser": 0, "extractor": 0, "hostile": 0}
@@ -114,7 +167,7 @@ def run_case(spec):
     if rng.random() < 0.6:
         for name in REG_CLASSES:
             if rng.random() < 0.3:
-                regs[name] = rng.choice(["ok", "raise", "raise", "raise_badstr", "hostile", "raise_pool", "raise_pool", "collide"])
+                regs[name] = rng.choice(["ok", "raise", "raise", "raise_badstr", "hostile", "raise_pool", "raise_pool", "collide", "not_a_dict", "not_a_dict"])
     ext_calls = {"n": 0}
 
     def make_extractor(name, kind):
@@ -131,6 +184,18 @@ def run_case(spec):
                 fired["extractor"] += 1
                 raise excs.make(random.Random(name).choice(["ValueError", "KeyError", "UserError", "DeepUserError", "OSError", "RuntimeError", "BadStr"]),
                                 "extractor for %s failed" % name)
+            if kind == "not_a_dict":
+                # a buggy extractor: returns None (`lambda e: e.details` without details), a list that is no list of pairs, an iterator
+                # that fails while it is consumed - whatever eliot makes of it, the logging call returns
+                fired["extractor"] += 1
+                k = ext_calls["n"] % 4
+                if k == 0:
+                    return None
+                if k == 1:
+                    return ["not", "pairs", 3]
+                if k == 2:
+                    return (x for x in [("a", 1), 1 / 0 if False else None])
+                return 7
             if kind == "collide":
                 # a well-behaved extractor whose field names coincide with the names eliot itself uses
                 return {"exception": 5, "reason": faults.Plain(), "traceback": 7, "message_type": "mine", "action_status": "x", "task_uuid": 3}
@@ -251,6 +316,8 @@ def finalize(agg, tier):
         return "hostile values rarely reached the file destination"
     if agg["counters"].get("logging_calls_made_during_interpreter_shutdown", 0) < 9:
         return "too few logging calls were made during interpreter shutdown"
+    if agg["counters"].get("logging_calls_as_outermost_frame_of_a_thread", 0) < 5:
+        return "too few logging calls were made as the outermost frame of a thread"
     kinds = set(agg["sets"].get("fault_x_message_kind", {}))
     need = ["dest_fault@action_started", "dest_fault@action_succeeded", "dest_fault@action_failed", "dest_fault@in_action_message",
             "dest_fault@contextless_message", "dest_fault@traceback", "dest_fault@destination_failure_report",
